@@ -846,7 +846,7 @@ pub fn run(session: &Session, prop: &'static RefProp, rule: &str) -> i32 {
         session.run_enum(prop, cases);
     }
     if !session.stopped() {
-        session.run_tapes(prop, session.tier.of(40_000, 2_000_000), 600, 0);
+        session.run_tapes(prop, session.tier.of(80_000, 2_000_000), 600, 0);
     }
     let stats = session.stats.lock().unwrap();
     let discarded: u64 = stats.discards.values().sum();
